@@ -5,6 +5,7 @@ import (
 	"fmt"
 	"net/netip"
 	"sync"
+	"sync/atomic"
 	"time"
 
 	"github.com/fxamacker/cbor/v2"
@@ -28,6 +29,7 @@ type pingPongState struct {
 	started time.Time
 
 	notify  chan struct{}
+	done    atomic.Bool
 	expires time.Time
 }
 
@@ -204,6 +206,12 @@ func (h *PingPongHandler) handleResponse(_ *mgr.WorkerCtx, _ frame.Frame, hdr *P
 	}
 	if response.Msg != "pong" {
 		return errors.New("invalid ping pong response")
+	}
+
+	// Check if we already received a response for this state.
+	// A retry may put the state back while a response is being handled.
+	if !pingState.done.CompareAndSwap(false, true) {
+		return errors.New("pong response already processed")
 	}
 
 	// Notify waiters and set state again to block too quick requests.
